@@ -363,6 +363,12 @@ var c01StmtAlphabet = []string{
 	"mm = {1: 1, 2: 2, 3: 3, 4: 4, 5: 5}; del(mm[5]); mb = mm; mb[1] = v; println(mm, mb)",
 	"md = {1: 1, 1: 2, 1: 3, 1: 4, 1: 5}; me = md; me[1] = v; del(me[1]); println(md, me)",
 	"ma = [1, 2, 3, 4, 5, 6, 7, 8, 9, 10][0:2]; mc = ma; mc[0] = v; println(ma, mc)",
+	// a global function replaced from inside a function that read it first; derived arrays that could share storage;
+	// a counted loop left by an error that is caught
+	"inc = x => x + 1; func fi(n) { inc(n) * 2 }; func swap() { old = inc; inc = x => x + 10; old }; println(fi(1)); swap(); println(fi(1))",
+	"aa = [0, 1, 2, 3, 4, 5, 6, 7, 8, 9, 10, 11]; bb = aa[0:9]; cc = bb + 99; println(aa[9], cc)", "xx = [0, 1, 2, 3, 4, 5, 6, 7, 8, 9]; yy = xx + 10; pp = yy + 11; qq = yy + 12; println(pp[10], qq[10], yy)",
+	"i = 10; r = catch(func() { for i = 0:5 { if i == 2 { error(\"boom\") } } }()); println(r.err, i)", "println(catch(for j = 3 { if j == 1 { error(\"e\") } }).err, j)",
+	"println(catch(for j = 3 { catch(for k = 2 { if k == 1 { error(\"in\") } }); j }), j, k)",
 	// the value of a loop expression
 	"w = for i = 0:5 { if i == 3 { break }; i }", "w = for i = 4 { i * 2 }", "w = [for e = [4, 5, 6] { if e == 6 { break }; e }, for v < 6 { v = v + 1; v }]",
 	// a trailing array argument is spread into the variadic parameters, also when it is a variable of an outer scope
